@@ -2,7 +2,7 @@ import ApdVerif.Model.Dispatch
 import ApdVerif.Spec.Specials
 import ApdVerif.Spec.Defs
 import ApdVerif.Lemmas.RoundCoreLemmas
-import ApdVerif.Props.C15
+import ApdVerif.Lemmas.C15Lemmas
 /-!
 # Lemmas for `Props/C08.lean` (special values)
 -/
@@ -60,12 +60,14 @@ theorem setExponent_coeff0 (c : Ctx) (d : Dec) (res : Cond) (xs : List Int)
     · simp [Dec.isZero, h] at h2
     · exact h h1
 
-/-- `Context.round` on a zero coefficient -/
-theorem ctxRound_coeff0 (c : Ctx) (d : Dec) (h0 : d.coeff = 0) (hns : NoSys (ctxRound c d).2)
-    (hov : d.form = .finite ∨ d.exp ≤ c.emax) :
+/-- `Context.round` on a finite zero: a finite zero of the same sign, no forbidden condition -/
+theorem ctxRound_coeff0 (c : Ctx) (d : Dec) (hf : d.form = .finite) (h0 : d.coeff = 0)
+    (hns : NoSys (ctxRound c d).2) :
     (ctxRound c d).1.form = d.form ∧ (ctxRound c d).1.coeff = 0 ∧
     (ctxRound c d).1.neg = d.neg ∧ Clean (ctxRound c d).2 := by
-  unfold ctxRound roundX at hns ⊢
+  rw [ctxRound_finite c d hf] at hns ⊢
+  have hov : d.form = .finite ∨ d.exp ≤ c.emax := Or.inl hf
+  unfold ctxRoundFin roundXFin at hns ⊢
   simp only [h0, ndigits_zero, Bool.true_and] at hns ⊢
   by_cases hp : c.prec = 0
   · simp only [hp, beq_self_eq_true, if_true] at hns ⊢
@@ -81,6 +83,12 @@ theorem ctxRound_coeff0 (c : Ctx) (d : Dec) (h0 : d.coeff = 0) (hns : NoSys (ctx
       exact ⟨a1, a2, a3, clean_or clean_subnormal a4⟩
     · simp only [h1, hd, if_false] at hns ⊢
       exact setExponent_coeff0 c d {} [d.exp, 0] h0 clean_empty hns (by simpa [sumInts] using hov)
+
+/-- `Context.round` copies an infinity -/
+theorem ctxRound_inf (c : Ctx) (n : Bool) (e : Int) (co : Nat) :
+    ctxRound c { form := .infinite, neg := n, exp := e, coeff := co } =
+      ({ form := .infinite, neg := n, exp := e, coeff := co }, {}) :=
+  ctxRound_nonfinite c _ (by simp)
 
 /-! ## meeting the expectation -/
 
@@ -189,82 +197,45 @@ theorem C08_floor (c : Ctx) (x y : Dec) (e : Expect) (h : specials "floor" x y =
     simp [specials, nanRule, nanOf, isInf, Spec.isZero, Spec.invalid, inf, Spec.zero] at h <;>
     unfold floorOp toIntegralSpecials <;> c08_fin h
 
-/-! ## operations that round an infinity (`Abs`, `Neg`, `Round`, `Reduce`) -/
-
-/-- the side condition under which rounding an infinity is harmless: zero coefficient and an
-exponent field that does not exceed `emax` (every infinity the package itself produces has
-coefficient 0 and exponent 0) -/
-def InfOK (c : Ctx) (x : Dec) : Prop := x.form = .infinite → x.coeff = 0 ∧ x.exp ≤ c.emax
+/-! ## operations that pass an infinity to `Context.round` (`Abs`, `Neg`, `Round`, `Reduce`) -/
 
 theorem finish_noSys (c : Ctx) (r : Dec × Cond) (hd : Delivered (finish c r).err) : NoSys r.2 :=
   noSys_of_delivered c.traps r.2 hd
 
-theorem C08_abs (c : Ctx) (x y : Dec) (e : Expect) (h : specials "abs" x y = some e)
-    (hd : Delivered (absOp c x).err) (hi : InfOK c x) :
+theorem C08_abs (c : Ctx) (x y : Dec) (e : Expect) (h : specials "abs" x y = some e) :
     e.meets (absOp c x).d (absOp c x).fl = true := by
   obtain ⟨xf, xn, xe, xc⟩ := x
   cases xf <;>
     simp [specials, nanRule, nanOf, isInf, Spec.isZero, Spec.invalid, Spec.zero] at h
   · subst h
-    obtain ⟨h0, hle⟩ := hi rfl
-    have hE : absOp c { form := .infinite, neg := xn, exp := xe, coeff := xc } =
-        finish c (ctxRound c { form := .infinite, neg := false, exp := xe, coeff := xc }) := by
-      simp [absOp, shouldSetAsNaN, Dec.isNaN, Dec.absD]
-    rw [hE] at hd ⊢
-    obtain ⟨a1, a2, a3, a4⟩ := ctxRound_coeff0 c { form := .infinite, neg := false, exp := xe, coeff := xc } h0
-      (finish_noSys c _ hd) (Or.inr hle)
-    exact meets_inf false _ _ a1 a3 a4
+    simp [absOp, shouldSetAsNaN, Dec.isNaN, Dec.absD, ctxRound_inf, finish, Expect.meets, inf]
   all_goals (unfold absOp; c08_fin h)
 
-theorem C08_neg (c : Ctx) (x y : Dec) (e : Expect) (h : specials "neg" x y = some e)
-    (hd : Delivered (negOp c x).err) (hi : InfOK c x) :
+theorem C08_neg (c : Ctx) (x y : Dec) (e : Expect) (h : specials "neg" x y = some e) :
     e.meets (negOp c x).d (negOp c x).fl = true := by
   obtain ⟨xf, xn, xe, xc⟩ := x
   cases xf <;>
     simp [specials, nanRule, nanOf, isInf, Spec.isZero, Spec.invalid, Spec.zero] at h
   · subst h
-    obtain ⟨h0, hle⟩ := hi rfl
-    have hE : negOp c { form := .infinite, neg := xn, exp := xe, coeff := xc } =
-        finish c (ctxRound c { form := .infinite, neg := !xn, exp := xe, coeff := xc }) := by
-      simp [negOp, shouldSetAsNaN, Dec.isNaN, Dec.negD, Dec.isZero]
-    rw [hE] at hd ⊢
-    obtain ⟨a1, a2, a3, a4⟩ := ctxRound_coeff0 c { form := .infinite, neg := !xn, exp := xe, coeff := xc } h0
-      (finish_noSys c _ hd) (Or.inr hle)
-    exact meets_inf (!xn) _ _ a1 a3 a4
+    simp [negOp, shouldSetAsNaN, Dec.isNaN, Dec.negD, Dec.isZero, ctxRound_inf, finish, Expect.meets, inf]
   all_goals (unfold negOp; c08_fin h)
 
-theorem C08_round (c : Ctx) (x y : Dec) (e : Expect) (h : specials "round" x y = some e)
-    (hd : Delivered (roundOp c x).err) (hi : InfOK c x) :
+theorem C08_round (c : Ctx) (x y : Dec) (e : Expect) (h : specials "round" x y = some e) :
     e.meets (roundOp c x).d (roundOp c x).fl = true := by
   obtain ⟨xf, xn, xe, xc⟩ := x
   cases xf <;>
     simp [specials, nanRule, nanOf, isInf, Spec.isZero, Spec.invalid, Spec.zero] at h
   · subst h
-    obtain ⟨h0, hle⟩ := hi rfl
-    have hE : roundOp c { form := .infinite, neg := xn, exp := xe, coeff := xc } =
-        finish c (ctxRound c { form := .infinite, neg := xn, exp := xe, coeff := xc }) := by
-      simp [roundOp, shouldSetAsNaN, Dec.isNaN]
-    rw [hE] at hd ⊢
-    obtain ⟨a1, a2, a3, a4⟩ := ctxRound_coeff0 c _ h0 (finish_noSys c _ hd) (Or.inr hle)
-    exact meets_inf xn _ _ a1 a3 a4
+    simp [roundOp, shouldSetAsNaN, Dec.isNaN, ctxRound_inf, finish, Expect.meets, inf]
   all_goals (unfold roundOp; c08_fin h)
 
-theorem C08_reduce (c : Ctx) (x y : Dec) (e : Expect) (h : specials "reduce" x y = some e)
-    (hd : Delivered (reduceOp c x).err) (hi : InfOK c x) :
+theorem C08_reduce (c : Ctx) (x y : Dec) (e : Expect) (h : specials "reduce" x y = some e) :
     e.meets (reduceOp c x).d (reduceOp c x).fl = true := by
   obtain ⟨xf, xn, xe, xc⟩ := x
   cases xf <;>
     simp [specials, nanRule, nanOf, isInf, Spec.isZero, Spec.invalid, Spec.zero] at h
   · subst h
-    obtain ⟨h0, hle⟩ := hi rfl
-    have hns : NoSys (ctxRound c { form := .infinite, neg := xn, exp := xe, coeff := xc }).2 := by
-      apply noSys_of_delivered c.traps
-      simpa [reduceOp, shouldSetAsNaN, Dec.isNaN] using hd
-    obtain ⟨a1, a2, a3, a4⟩ := ctxRound_coeff0 c _ h0 hns (Or.inr hle)
-    apply meets_inf xn
-    · simp [reduceOp, shouldSetAsNaN, Dec.isNaN, reduceD, a1]
-    · simp [reduceOp, shouldSetAsNaN, Dec.isNaN]
-    · simpa [reduceOp, shouldSetAsNaN, Dec.isNaN] using a4
+    simp [reduceOp, shouldSetAsNaN, Dec.isNaN, ctxRound_inf, reduceD, Expect.meets, inf]
   all_goals (unfold reduceOp; c08_fin h)
 
 /-! ## comparison with one, integrality -/
@@ -323,8 +294,8 @@ theorem C08_sqrt (c : Ctx) (x y : Dec) (e : Expect) (h : specials "sqrt" x y = s
           finish c (ctxRound c { form := .finite, neg := xn, exp := Int.tdiv xe 2, coeff := 0 }) := by
         simp [sqrtOp, rootSpecials, shouldSetAsNaN, Dec.isNaN, Dec.sign]
       rw [hE] at hd ⊢
-      obtain ⟨a1, a2, a3, a4⟩ := ctxRound_coeff0 c { form := .finite, neg := xn, exp := Int.tdiv xe 2, coeff := 0 } rfl
-        (finish_noSys c _ hd) (Or.inl rfl)
+      obtain ⟨a1, a2, a3, a4⟩ := ctxRound_coeff0 c { form := .finite, neg := xn, exp := Int.tdiv xe 2, coeff := 0 } rfl rfl
+        (finish_noSys c _ hd)
       exact meets_zero xn _ _ a1 a3 a2 a4
     · cases xn <;>
         simp [specials, nanRule, nanOf, isInf, Spec.isZero, Spec.invalid, Spec.zero, hx0] at h
@@ -346,8 +317,8 @@ theorem C08_cbrt (c : Ctx) (x y : Dec) (e : Expect) (h : specials "cbrt" x y = s
           some (finish c (ctxRound c { form := .finite, neg := xn, exp := Int.tdiv xe 3, coeff := 0 })) := by
         simp [cbrtOp, rootSpecials, shouldSetAsNaN, Dec.isNaN, Dec.sign]
       refine ⟨_, hE, fun hd => ?_⟩
-      obtain ⟨a1, a2, a3, a4⟩ := ctxRound_coeff0 c { form := .finite, neg := xn, exp := Int.tdiv xe 3, coeff := 0 } rfl
-        (finish_noSys c _ hd) (Or.inl rfl)
+      obtain ⟨a1, a2, a3, a4⟩ := ctxRound_coeff0 c { form := .finite, neg := xn, exp := Int.tdiv xe 3, coeff := 0 } rfl rfl
+        (finish_noSys c _ hd)
       exact meets_zero xn _ _ a1 a3 a2 a4
     · simp [specials, nanRule, nanOf, isInf, Spec.isZero, Spec.invalid, Spec.zero, hx0] at h
   all_goals
